@@ -24,6 +24,12 @@ type accHistCase struct {
 	Ops  []accOp   `json:"ops"`
 }
 
+var otherRetrievals = []struct{ path, doc string }{
+	{`$[*]`, `[10,20,30,40,50,60]`},
+	{`$..*`, `{"p":[1,2,{"q":3}],"r":{"s":[4]}}`},
+	{`$.a[0:3]`, `{"a":[7,8,9]}`},
+}
+
 func init() {
 	families["acchist"] = func(w *worker, inner []byte) {
 		var c accHistCase
@@ -61,6 +67,7 @@ func init() {
 				accs[i] = a
 			}
 			trail := ""
+			var others []interface{} // kept alive until the history ends
 			for n, op := range c.Ops {
 				i := op.I - 1
 				v := op.V.ToGo(m)
@@ -69,6 +76,22 @@ func init() {
 				var p interface{}
 				func() {
 					defer func() { p = recover() }()
+					if op.K == "other" {
+						// an unrelated retrieval in accessor mode; the caller keeps those accessors too and reads them
+						o := otherRetrievals[(op.I-1)%len(otherRetrievals)]
+						var od interface{}
+						json.Unmarshal([]byte(o.doc), &od)
+						if po := safeParse(o.path, &cfg); po.F != nil {
+							ro := safeCall(po.F, od)
+							for _, x := range ro.Vals {
+								if xa, ok := x.(jsonpath.Accessor); ok && xa.Get != nil {
+									xa.Get()
+								}
+							}
+							others = append(others, ro.Vals, od)
+						}
+						return
+					}
 					if op.K == "set" {
 						accs[i].Set(v)
 						return
@@ -101,6 +124,7 @@ func init() {
 						}()
 						g = accs[j].Get()
 					}()
+					_ = others
 					if !op.Gets[j].matches(g) {
 						w.viol("C13", "get-not-live", text, before, fmt.Sprintf("after%s accessor %d (%s) reads %s, the heap holds %s there", trail, j, locString(c.Locs[j]), snap(g), snap(op.Gets[j].ToGo(m))), "acchist", inner)
 						return
